@@ -87,6 +87,7 @@ var cfgs = map[string]propCfg{
 }
 
 type witness struct {
+	Ladder  *int                `json:"ladder_index,omitempty"`
 	Stack   string              `json:"stack"`
 	Profile string              `json:"profile"`
 	Index   int                 `json:"history_index"`
@@ -126,6 +127,7 @@ func runModelProp(prop, tier, replay string) {
 		stacks, nh, steps = cfg.stacksT, cfg.histT, cfg.stepsT
 	}
 	only := -1
+	onlyLadder := -1
 	onlyStack := ""
 	if replay != "" {
 		b, err := os.ReadFile(replay)
@@ -145,6 +147,9 @@ func runModelProp(prop, tier, replay string) {
 		r.Seed = w.Seed
 		only, onlyStack = w.Witness.Index, w.Witness.Stack
 		steps = w.Witness.Steps
+		if w.Witness.Ladder != nil {
+			onlyLadder, only = *w.Witness.Ladder, 1<<30
+		}
 	}
 	base := r.Rand()
 	for _, stack := range stacks {
@@ -199,6 +204,9 @@ func runModelProp(prop, tier, replay string) {
 		}
 		if prop == "C04" {
 			partSplittings(ctx, r, s, stack, base.Fork("splits/"+stack))
+		}
+		if (prop == "C02" || prop == "C13") && (only < 0 || onlyLadder >= 0) {
+			promotionLadders(ctx, r, prop, s, stack, base.Fork("ladders/"+stack), cfg, onlyLadder)
 		}
 		_ = s.Stop(ctx)
 		env.Close()
